@@ -565,8 +565,21 @@ pub(crate) fn run_worker_loop(worker: &mut UringWorker) -> Result<(), ZmqError> 
                 false,
                 worker.cfg_egress_cap,
               );
-              let close_io_ops = handler.close_initiated(&interface);
+              let mut close_io_ops = handler.close_initiated(&interface);
               if !close_io_ops.sqe_blueprints.is_empty() {
+                // A single-shot read still in flight keeps the socket open past the Close (the
+                // peer would see no FIN until it sends something): cancel it first.
+                for ud in worker.internal_op_tracker.find_ops_for_fd(fd_to_close, |t| {
+                  matches!(t, crate::io_uring_backend::worker::internal_op_tracker::InternalOpType::RingRead)
+                }) {
+                  close_io_ops.sqe_blueprints.insert(
+                    0,
+                    crate::io_uring_backend::connection_handler::HandlerSqeBlueprint::RequestNewAsyncCancel {
+                      fd: fd_to_close,
+                      target_user_data: ud,
+                    },
+                  );
+                }
                 worker
                   .work_map
                   .entry(fd_to_close)
